@@ -72,8 +72,8 @@ def cmpHeads (R : RepOps) (op : CmpOp) (x y : Num) : Res Bool :=
   match x.1, y.1 with
   | .int a, .int b => intOps.cmp op (.int a, x.2) (.int b, y.2)
   | .sc rL eL radix, .sc rR eR radix' =>
-    if radix = radix' ∧ eL = eR then R.cmp op (rL, x.2) (rR, y.2)
-    else .ill "scaled comparison with different exponents: see CnlModel.ScaledCmp"
+    if radix = radix' then Scaled.cmp R op radix ⟨(rL, x.2), eL⟩ ⟨(rR, y.2), eR⟩
+    else .ill "scaled operands of different radix"
   | .ov rL t, .ov rR t' => if t = t' then R.cmp op (rL, x.2) (rR, y.2) else .ill "tags differ"
   | .rd rL m, .rd rR m' => if m = m' then R.cmp op (rL, x.2) (rR, y.2) else .ill "modes differ"
   | _, _ => .ill "operand combination outside the model"
@@ -104,8 +104,8 @@ def castWith (R : RepOps) (t : Ty) (x : Num) : Res Num :=
   match t, x.1 with
   | .int d, .int a => intOps.cast (.int d) (.int a, x.2)
   | .sc rd e radix, .sc rs e' radix' =>
-    if e = e' ∧ radix = radix' then (R.cast rd (rs, x.2)).map (fun v => (.sc v.1 e radix, v.2))
-    else .ill "scaled conversion with different exponents: see CnlModel.ScaledCvt"
+    if radix = radix' then (Scaled.convert R radix ⟨(rs, x.2), e'⟩ rd e).map (wrapSc radix)
+    else .ill "scaled conversion between different radixes: not modelled"
   | .ov rd .nat, .ov rs .nat => (R.cast rd (rs, x.2)).map (fun v => (.ov v.1 .nat, v.2))
   | .rd rd .nat, .rd rs .nat => (R.cast rd (rs, x.2)).map (fun v => (.rd v.1 .nat, v.2))
   | _, _ => .ill "conversion outside the model"
@@ -124,7 +124,10 @@ def ops : Nat → RepOps
       scale := fun k radix x => match x.1 with
         | .int _ => intOps.scale k radix x
         | _ => .ill "scale of a wrapper: not modelled at this level"
-      cast := castWith R }
+      cast := castWith R
+      shlConstTy := fun t k => match t with
+        | .int a => .int (promote a)
+        | o => R.shlConstTy o k }
 
 def level (x y : Num) : Nat := max x.1.depth y.1.depth
 
